@@ -961,6 +961,45 @@ pub fn gen_c20(o: &mut Out, tier: &str, seed: u64) {
                 if hi { f.hi.r = rand_scalar(&mut r) } else { f.lo.r = rand_scalar(&mut r) }
                 bad(o, &mut r, &format!("{}.{}.opening", bname, if hi { "hi" } else { "lo" }), &bname, f.wit(), 2);
             }
+            // violations that preserve an aggregate: two handles shifted by +D / -D, handles permuted, keys permuted,
+            // commitment and a handle shifted together; plain and batched (lo, hi, both)
+            {
+                let joint = |v: &mut Val, kind: usize, d: &RistrettoPoint| {
+                    let n = v.ds.len();
+                    match kind {
+                        0 => { v.ds[0] += d; v.ds[1] -= d; }
+                        1 => { v.ds[n - 2] += d; v.ds[n - 1] -= d; }
+                        2 => { v.ds.swap(0, 1); }
+                        3 => { v.ds.swap(0, n - 1); }
+                        4 => { v.ps.swap(0, 1); }
+                        5 => { v.ps.swap(0, n - 1); }
+                        6 => { v.c += d; v.ds[0] -= d; }
+                        _ => { v.ds.rotate_left(1); }
+                    }
+                };
+                for kind in 0..8 {
+                    let d = rp(&mut r);
+                    let mut f = val_st(&mut r, n, a, None);
+                    joint(&mut f, kind, &d);
+                    bad(o, &mut r, &format!("{}.joint{}", name, kind), &name, f.wit(), 2);
+                    for which in 0..3 {
+                        // the keys are shared by lo and hi (taken from lo): a key permutation has one form only
+                        if (kind == 4 || kind == 5) && which != 0 { continue; }
+                        let mut f = bval_st(&mut r, n, a, 9, None);
+                        if which != 1 { joint(&mut f.lo, kind, &d); }
+                        if which != 0 { joint(&mut f.hi, kind, &d); }
+                        bad(o, &mut r, &format!("{}.joint{}.{}", bname, kind, ["lo", "hi", "both"][which]), &bname, f.wit(), 2);
+                    }
+                }
+                // lo and hi handles exchanged (commitments kept), lo.ds[i] += D and hi.ds[i] -= D
+                let mut f = bval_st(&mut r, n, a, 9, None);
+                std::mem::swap(&mut f.lo.ds, &mut f.hi.ds);
+                bad(o, &mut r, &format!("{}.joint.handles-exchanged", bname), &bname, f.wit(), 2);
+                let d = rp(&mut r);
+                let mut f = bval_st(&mut r, n, a, 9, None);
+                f.lo.ds[0] += d; f.hi.ds[0] -= d;
+                bad(o, &mut r, &format!("{}.joint.lo-hi-shift", bname), &bname, f.wit(), 2);
+            }
             // lo and hi swapped (each valid for the other's amount)
             let f = bval_st(&mut r, n, 5, 9, None);
             let sw = BVal { lo: Val { amt: 5, r: f.lo.r, ..val_clone(&f.hi) }, hi: Val { amt: 9, r: f.hi.r, ..val_clone(&f.lo) } };
